@@ -18,7 +18,20 @@ impl Parser {
     /// Parses Lua code into a [`Block`].
     pub fn parse(&self, code: &str) -> Result<Block, ParserError> {
         let full_moon_parse_timer = Timer::now();
-        let parse_result = full_moon::parse_fallible(code, LuaVersion::luau()).into_result();
+        // the parsing library can panic on some malformed inputs (for example an invalid
+        // character inside a type annotation): report it like any other parse failure
+        let parse_result = std::panic::catch_unwind(|| {
+            full_moon::parse_fallible(code, LuaVersion::luau()).into_result()
+        })
+        .map_err(|payload| {
+            ParserError::internal(
+                payload
+                    .downcast_ref::<&str>()
+                    .map(|message| message.to_string())
+                    .or_else(|| payload.downcast_ref::<String>().cloned())
+                    .unwrap_or_else(|| "unknown error".to_owned()),
+            )
+        })?;
         log::trace!(
             "full-moon parsing done in {}",
             full_moon_parse_timer.duration_label()
@@ -55,6 +68,7 @@ impl Parser {
 enum ParserErrorKind {
     Parsing(Vec<full_moon::Error>),
     Converting(ConvertError),
+    Internal(String),
 }
 
 /// The error type that can occur when parsing code.
@@ -75,6 +89,12 @@ impl ParserError {
             kind: ParserErrorKind::Converting(err).into(),
         }
     }
+
+    fn internal(message: String) -> Self {
+        Self {
+            kind: ParserErrorKind::Internal(message).into(),
+        }
+    }
 }
 
 impl fmt::Display for ParserError {
@@ -87,6 +107,9 @@ impl fmt::Display for ParserError {
                 Ok(())
             }
             ParserErrorKind::Converting(err) => write!(f, "{}", err),
+            ParserErrorKind::Internal(message) => {
+                write!(f, "the parser failed unexpectedly: {}", message)
+            }
         }
     }
 }
